@@ -328,6 +328,7 @@ func (x *Exec) jump(st *State, fr *Frame, to *ssa.BasicBlock) bool {
 	// discovery of the loop's write set
 	var writes map[string]bool
 	rows := map[string]map[int]*Term{} // regions written only at loop-invariant base references
+	rowWins := map[string]map[int][]win{} // ... and, for slice backings, only inside these windows
 	all := false
 	{
 		d := st.clone()
@@ -347,19 +348,60 @@ func (x *Exec) jump(st *State, fr *Frame, to *ssa.BasicBlock) bool {
 		writes = d.disc.writes
 		all = d.disc.all
 		memo := map[int]bool{}
+		// a base reference read from the heap inside the loop (r.entries inside "for ... { r.entries[i] = x }")
+		// is a term over the discovery run's havocked regions; the regions the loop does not write hold their
+		// pre-loop contents, so such a base is rewritten over the pre-loop heap before it is judged
+		back := map[int]*Term{}
+		if !all {
+			for key, srt := range regionSorts {
+				if writes[key] {
+					continue
+				}
+				from := mkVar(fmt.Sprintf("H%d_%s", d.epoch, regionName(key)), srt)
+				back[from.id] = st.region(key, srt)
+			}
+		}
+		smemo := map[int]*Term{}
 		for k := range writes {
 			if d.disc.whole[k] {
 				continue
 			}
 			ok := true
-			for _, b := range d.disc.bases[k] {
+			nb := map[int]*Term{}
+			for oid, b := range d.disc.bases[k] {
+				if !olderThan(b, d.disc.startID, memo) && len(back) > 0 {
+					b = subst(b, back, smemo)
+				}
 				if !olderThan(b, d.disc.startID, memo) {
 					ok = false
 					break
 				}
+				nb[b.id] = b
+				// windows of the slices through which this row was written
+				if ws := d.disc.wins[k][oid]; len(ws) > 0 && len(ws) <= 4 && !d.disc.fullRow[k][oid] && st.disc == nil {
+					var out []win
+					good := true
+					for _, w := range ws {
+						lo, n := w.lo, w.n
+						if len(back) > 0 {
+							lo, n = subst(lo, back, smemo), subst(n, back, smemo)
+						}
+						if !olderThan(lo, d.disc.startID, memo) || !olderThan(n, d.disc.startID, memo) {
+							good = false
+							break
+						}
+						out = append(out, win{lo, n})
+					}
+					if good {
+						if rowWins[k] == nil {
+							rowWins[k] = map[int][]win{}
+						}
+						rowWins[k][b.id] = out
+					}
+				}
 			}
-			if ok && len(d.disc.bases[k]) > 0 && len(d.disc.bases[k]) <= 8 {
-				rows[k] = d.disc.bases[k]
+			if ok && len(nb) > 0 && len(nb) <= 8 {
+				rows[k] = nb
 			}
 		}
 		if st.disc != nil {
@@ -405,7 +447,18 @@ func (x *Exec) jump(st *State, fr *Frame, to *ssa.BasicBlock) bool {
 				}
 				sort.Ints(ids)
 				for _, id := range ids {
-					cur = Store(cur, r[id], mkVar(freshName("L_"+regionName(k)), s.elem))
+					nw := mkVar(freshName("L_"+regionName(k)), s.elem)
+					if ws := rowWins[k][id]; len(ws) > 0 && s.elem.idx == I64 {
+						// cells outside the written slices' windows keep their contents
+						j := mkBound(freshName("j"), I64)
+						var outs []*Term
+						for _, w := range ws {
+							outs = append(outs, Or(BvCmp("bvslt", j, w.lo), BvCmp("bvsle", BvBin("bvadd", w.lo, w.n), j)))
+						}
+						old := Select(cur, r[id])
+						st.assume(Forall([]*Term{j}, Implies(And(outs...), Eq(Select(nw, j), Select(old, j)))))
+					}
+					cur = Store(cur, r[id], nw)
 				}
 				st.setRegion(k, cur)
 				continue
@@ -422,6 +475,20 @@ func (x *Exec) jump(st *State, fr *Frame, to *ssa.BasicBlock) bool {
 			panic(abortErr{err.Error()})
 		}
 		st.assume(t)
+	}
+	// a loop around sync.Cond.Wait: its head is where the critical section (re)starts, see atwait()
+	for _, blk := range fr.fn.Blocks {
+		if !li.blocks[blk.Index] {
+			continue
+		}
+		for _, ins := range blk.Instrs {
+			if c, ok := ins.(*ssa.Call); ok {
+				if cal := c.Common().StaticCallee(); cal != nil && cal.String() == "(*sync.Cond).Wait" {
+					st.waitSt = nil
+					st.waitSt = st.clone()
+				}
+			}
+		}
 	}
 	enter()
 	return true
@@ -546,10 +613,10 @@ func (x *Exec) evalValue(st *State, fr *Frame, v ssa.Value) SV {
 		idx := toI64(fr.get(x, n.Index))
 		switch u := a.ty.Underlying().(type) {
 		case *types.Array:
-			x.safe(st, fr, "index", n.Pos(), BvCmp("bvult", idx, mkBV(u.Len(), 64)))
+			x.safe(st, fr, "index", n.Pos(), idxIn(idx, mkBV(u.Len(), 64)))
 			return arrayIndex(a, idx)
 		case *types.Basic: // string
-			x.safe(st, fr, "index", n.Pos(), BvCmp("bvult", idx, strLen(a.t())))
+			x.safe(st, fr, "index", n.Pos(), idxIn(idx, strLen(a.t())))
 			return scalarSV(n.Type(), mkVar(freshName("strbyte"), BV(8)))
 		}
 	case *ssa.IndexAddr:
@@ -557,14 +624,14 @@ func (x *Exec) evalValue(st *State, fr *Frame, v ssa.Value) SV {
 		idx := toI64(fr.get(x, n.Index))
 		switch u := a.ty.Underlying().(type) {
 		case *types.Slice:
-			x.safe(st, fr, "index", n.Pos(), BvCmp("bvult", idx, a.l[2]))
+			x.safe(st, fr, "index", n.Pos(), idxIn(idx, a.l[2]))
 			r := sliceElemAddr(a, idx)
 			r.ty = n.Type()
 			return r
 		case *types.Pointer:
 			at := u.Elem().Underlying().(*types.Array)
 			x.nilCheck(st, fr, a, n.Pos())
-			x.safe(st, fr, "index", n.Pos(), BvCmp("bvult", idx, mkBV(at.Len(), 64)))
+			x.safe(st, fr, "index", n.Pos(), idxIn(idx, mkBV(at.Len(), 64)))
 			info := a.p
 			if info == nil {
 				info = &PtrInfo{rootKey: typeKey(u.Elem()), rootTy: u.Elem()}
@@ -588,14 +655,14 @@ func (x *Exec) evalValue(st *State, fr *Frame, v ssa.Value) SV {
 		}
 		// string index
 		idx := toI64(fr.get(x, n.Index))
-		x.safe(st, fr, "index", n.Pos(), BvCmp("bvult", idx, strLen(a.t())))
+		x.safe(st, fr, "index", n.Pos(), idxIn(idx, strLen(a.t())))
 		return scalarSV(n.Type(), mkVar(freshName("strbyte"), BV(8)))
 	case *ssa.MakeSlice:
 		ln := toI64(fr.get(x, n.Len))
 		cp := toI64(fr.get(x, n.Cap))
 		x.safe(st, fr, "makeslice", n.Pos(), And(BvCmp("bvsle", mkBV(0, 64), ln), BvCmp("bvsle", ln, cp)))
 		// allocation succeeded => size is sane (A6)
-		st.assume(BvCmp("bvule", cp, mkBVu(1<<40, 64)))
+		st.assume(BvCmp("bvsle", cp, mkBVu(1<<40, 64)))
 		ref := x.freshRef(st)
 		et := elemType(n.Type())
 		s := SV{ty: n.Type(), l: []*Term{ref, mkBV(0, 64), ln, cp}}
@@ -676,7 +743,7 @@ func (x *Exec) evalValue(st *State, fr *Frame, v ssa.Value) SV {
 	case *ssa.SliceToArrayPointer:
 		a := fr.get(x, n.X)
 		at := derefType(n.Type()).Underlying().(*types.Array)
-		x.safe(st, fr, "slice2array", n.Pos(), BvCmp("bvule", mkBV(at.Len(), 64), a.l[2]))
+		x.safe(st, fr, "slice2array", n.Pos(), BvCmp("bvsle", mkBV(at.Len(), 64), a.l[2]))
 		x.note("slice-to-array-pointer conversion in %s: result treated as fresh copy", fr.fn)
 		ref := x.freshRef(st)
 		return SV{ty: n.Type(), l: []*Term{ref}}
@@ -868,7 +935,7 @@ func (x *Exec) sliceOp(st *State, fr *Frame, n *ssa.Slice) SV {
 		} else {
 			mx = a.l[3]
 		}
-		x.safe(st, fr, "slice", n.Pos(), And(BvCmp("bvule", lo, hi), BvCmp("bvule", hi, mx), BvCmp("bvule", mx, a.l[3])))
+		x.safe(st, fr, "slice", n.Pos(), And(lenLe(lo, hi), BvCmp("bvsle", hi, mx), BvCmp("bvsle", mx, a.l[3])))
 		return SV{ty: n.Type(), l: []*Term{a.l[0], BvBin("bvadd", a.l[1], lo), BvBin("bvsub", hi, lo), BvBin("bvsub", mx, lo)}, p: a.p}
 	case *types.Basic: // string
 		ln := strLen(a.t())
@@ -877,7 +944,7 @@ func (x *Exec) sliceOp(st *State, fr *Frame, n *ssa.Slice) SV {
 		} else {
 			hi = ln
 		}
-		x.safe(st, fr, "slice", n.Pos(), And(BvCmp("bvule", lo, hi), BvCmp("bvule", hi, ln)))
+		x.safe(st, fr, "slice", n.Pos(), And(lenLe(lo, hi), BvCmp("bvsle", hi, ln)))
 		r := freshSV(n.Type(), "substr")
 		st.assume(Eq(strLen(r.t()), BvBin("bvsub", hi, lo)))
 		return r
@@ -895,7 +962,7 @@ func (x *Exec) sliceOp(st *State, fr *Frame, n *ssa.Slice) SV {
 		} else {
 			mx = al
 		}
-		x.safe(st, fr, "slice", n.Pos(), And(BvCmp("bvule", lo, hi), BvCmp("bvule", hi, mx), BvCmp("bvule", mx, al)))
+		x.safe(st, fr, "slice", n.Pos(), And(lenLe(lo, hi), BvCmp("bvsle", hi, mx), BvCmp("bvsle", mx, al)))
 		info := a.p
 		if info == nil {
 			info = &PtrInfo{rootKey: typeKey(u.Elem()), rootTy: u.Elem()}
